@@ -55,11 +55,12 @@ PROPS['C10'] = {
     'theorems': [
         thm('EmmetProps.C10_match', 'layer B, every stylesheet tree with arbitrary offsets, every position: match = first item in post-order whose span strictly contains the position; rule = [selector, }+1) with the body between the braces, declaration = [name, delimiter+1) with the value as body'),
         thm('EmmetProps.C10_outward', 'layer B, every stylesheet laid out in document order, every position in the file: balanced_outward = value, declaration and every enclosing rule (content then full range), innermost first — including positions after the first top-level rule'),
+        thm('EmmetProps.C10_inward', 'layer B, every stylesheet tree whose items start at pairwise different offsets, every position: balanced_inward = ranges of the innermost item containing the position (bounds included), then of its chain of first children'),
     ],
     'domains': ['dom_css'],
     'rule': 'stylesheets rendered from random trees of nested rules and ;-terminated declarations (pseudo-selectors, at-rules with parenthesised conditions, attribute selectors and values with braces/semicolons in strings and parentheses, comments, SCSS variables, custom properties, several top-level rules) with recorded ground truth; every position; non-trivial = sheet with a selector or value event; distinct = distinct source',
-    'explanation': 'Layer B theorems are about the stack machines over event streams; scan (layer A) and balanced_inward are tied by correspondence and the ground-truth oracle.',
-    'level_text': 'Lean 4 theorems: CSS match and balanced_outward over the event stream of ANY stylesheet tree equal the declarative specifications, for every position in the file (all trees, all offsets). The scanner (text -> events) and balanced_inward are covered by correspondence + generator ground truth, not proved.',
+    'explanation': 'Layer B theorems (match, balanced_outward, balanced_inward) are about the stack machines over event streams; scan (layer A: text -> events) is tied by correspondence and the ground-truth oracle (its range and order properties are C16 theorems).',
+    'level_text': 'Lean 4 theorems: CSS match, balanced_outward and balanced_inward over the event stream of ANY stylesheet tree equal the declarative specifications, for every position in the file (all trees, all offsets). That the scanner turns a document into the event stream of its tree is covered by correspondence + generator ground truth, not proved.',
     'level_note': 'Trusted: Lean kernel + standard axioms; hand-written models of css_matcher/scan.py, __init__.py, parse.py (0 differences on every generated input incl. all strings of length <= 3/4 over the stylesheet alphabet x every position).',
     'assumptions': [CORR, 'C10_outward assumes the tree is laid out in document order (Sheet.Seq), which rendered sheets satisfy'],
 }
@@ -189,9 +190,12 @@ PROPS['C01'] = {
 PROPS['C02'] = {
     'lean_targets': ['EmmetProps.C02'],
     'lean_imports': ['EmmetProps.C02'],
-    'theorems': [thm('EmmetProps.C02_count', 'for EVERY skeleton forest with *N on elements and groups at any depth: exactly N consecutive copies with repeater values 0..N-1 and count N (what $ numbering reads), as long as the repeat guard exceeds the number of copies', partial=True),
+    'theorems': [thm('EmmetProps.C02_count', 'for EVERY skeleton forest with *N on elements and groups at any depth: exactly N consecutive copies with repeater values 0..N-1 and count N (what $ numbering reads), as long as the repeat guard exceeds the number of copies'),
                  thm('EmmetProps.C02_numbering', 'every $-run (any width, @M, @-, @-M, no ^): replaced by the documented number of the nearest repeater, zero-padded; state unchanged'),
-                 thm('EmmetProps.C02_countdown_last', 'counting down, the last copy gets the start value')],
+                 thm('EmmetProps.C02_countdown_last', 'counting down, the last copy gets the start value'),
+                 thm('EmmetProps.C02_budget', 'maxRepeat, for EVERY skeleton forest and EVERY budget (also 0 or negative): the converter output is the budgeted unrolling — copies completed in document order, one unit per completed copy, a repeater stops after the copy that brings the budget to 0'),
+                 thm('EmmetProps.C02_budget_exhausted', 'a repeater whose first copy leaves at most one unit yields exactly one copy'),
+                 thm('EmmetProps.C02_budget_enough', 'with enough budget all copies are made and the budget drops by their number')],
     'domains': ['dom_markup'],
     'rule': 'exhaustive numbering forms ($ widths 1-3 x @M / @- / @-M bases x N up to 5 (quick) / 12 (thorough)) on four carriers (name, attribute value, text, repeated group), plus random abbreviations with nested repeaters and numbering in names / classes / attribute values / text under maxRepeat limits 1,2,3,5,9 and none; expected elements computed from the statement (threaded completion budget); non-trivial = at least two operators; distinct = distinct (abbreviation, config)',
     'explanation': 'The count clause is a theorem for guard > cost; the numbering arithmetic and the maxRepeat pruning are decided by correspondence + oracle (theorem for those clauses is future work).',
